@@ -343,6 +343,13 @@ def gen_history(rng, repo=None, shape=None):
         w.blocks[files[1]] = [{"kind": "pkg", "name": "PkgB", "text": "package PkgB {\n    const C0: u32 = PkgA::C0 + 1;\n    const C1: u32 = 2;\n    struct S0 {\n        a: logic<C0>,\n        b: PkgA::S0,\n    }\n}"}] + gen_file_blocks(rng, 1)
         for f in files[:2]:
             w.disk[f] = render(w.blocks[f])
+    if shape == "bgopen":
+        # filler files keep the background task busy so that a second didOpen can land in the middle of it
+        for i in range(24):
+            body = "\n".join("    let _f%d: logic<8> = %d + %d;" % (j, i, j) for j in range(40))
+            fn = ("0m%02d.veryl" if i % 2 else "zm%02d.veryl") % i      # before and after a..e in any path order
+            w.disk[fn] = "module Fill%02d {\n%s\n}\n" % (i, body)
+            w.blocks[fn] = None
     hist = {"incremental": chance(rng, 0.5), "shape": shape, "files": dict(w.disk), "steps": []}
     steps = hist["steps"]
     nsteps = rng.randrange(3, 13)
@@ -433,9 +440,14 @@ def gen_history(rng, repo=None, shape=None):
     # most histories start by opening one or two files
     order = list(files)
     rng.shuffle(order)
-    do_open(order[0])
-    if chance(rng, 0.5) and len(order) > 1:
-        do_open(order[1])
+    if shape == "bgopen":
+        steps.append(["open_bg", order[0], order[1]])
+        w.open[order[0]] = w.disk[order[0]]
+        w.open[order[1]] = w.disk[order[1]]
+    else:
+        do_open(order[0])
+        if chance(rng, 0.5) and len(order) > 1:
+            do_open(order[1])
     for _ in range(nsteps):
         live = sorted(w.open)
         closed = sorted(f for f in w.disk if f not in w.open)
@@ -508,6 +520,10 @@ def final_state(hist):
                 if disk.get(st[1]) != opened[st[1]]:
                     discarded.add(st[1])
                 del opened[st[1]]
+        elif k == "open_bg":
+            for f in (st[1], st[2]):
+                if f in disk:
+                    opened[f] = disk[f]
         elif k == "rename":
             if st[1] in disk:
                 disk[st[2]] = disk.pop(st[1])
